@@ -339,6 +339,81 @@ def job(payload):
     return out
 
 
+CORPUS_ATTRS = ["name", "byte_size", "decl_line", "decl_column", "type", "encoding", "language", "external", "declaration", "const_value", "upper_bound",
+                "producer", "comp_dir", "linkage_name", "accessibility", "inline", "prototyped", "artificial", "sibling", "specification", "abstract_origin",
+                "object_pointer", "bit_size", "alignment", "call_line", "call_column", "data_member_location", "virtuality", "containing_type", "high_pc",
+                "decl_file", "call_file", "enum_class", "explicit", "data_bit_offset", "lower_bound", "count", "calling_convention", "defaulted", "noreturn"]
+
+
+def job_corpus(path):
+    """Compiler output: the engine's value of whitelisted attributes vs llvm-dwarfdump's independent decoding."""
+    d = common.get_driver()
+    out = {"corpus_files": 0, "corpus_attrs": 0, "corpus_compared": 0, "bad": []}
+    hdr = dwdump.header_constants()
+    truth = dwdump.dump_values(path)
+    if not truth:
+        return out
+    if dwdump.altlink(path) is not None:
+        return out
+    inp = "d:" + common.hx(path)
+    tag = os.path.basename(path)
+    out["corpus_files"] += 1
+    try:
+        for name in CORPUS_ATTRS:
+            code = DW_AT.get(name if name != "import" else "import_")
+            if code is None:
+                code = hdr.get("DW_AT_" + name)
+            r = d.run("raw entry ?AT_%s [offset, [attribute ?AT_%s value]]" % (name, name), inp=inp, fuel=0, max=2000000, timeout=600)
+            if r["st"] != "done":
+                # an error on some DIE aborts the query: fall back to nothing (errors are allowed as 'reported')
+                continue
+            for s in r["res"]:
+                off = int(s[-1]["v"][0]["v"])
+                vals = s[-1]["v"][1]["v"]
+                t = [x for x in truth.get(off, []) if x[0] == code]
+                if len(t) > 1:
+                    continue      # the producer emitted the attribute twice on this DIE (old gcc does): nothing to compare one value with
+                if len(t) != 1:
+                    out["bad"].append(("corpus:attribute-presence-differs:%s" % name, dict(file=tag, die=hex(off)))); break
+                out["corpus_attrs"] += 1
+                a, f, tv = t[0]
+                if tv is None or len(vals) != 1:
+                    continue
+                v = vals[0]
+                ok = None
+                if tv[0] == "str":
+                    ok = v["t"] == "s" and bytes.fromhex(v["v"]) == tv[1]
+                elif tv[0] == "ref":
+                    ok = v["t"] == "die" and v["o"] == tv[1]
+                elif tv[0] == "flag":
+                    ok = v["t"] == "c" and v["d"] == "bool" and (int(v["v"]) != 0) == tv[1]
+                elif tv[0] == "file":
+                    ok = v["t"] == "s" and (bytes.fromhex(v["v"]).decode("utf-8", "replace") == tv[1] or tv[1].endswith(bytes.fromhex(v["v"]).decode("utf-8", "replace")))
+                elif tv[0] == "named":
+                    ok = v["t"] == "c" and hdr.get(tv[1]) == int(v["v"]) and (v["f"] == tv[1] or hdr.get(v["f"]) == hdr.get(tv[1]))
+                elif tv[0] == "num":
+                    if v["t"] != "c":
+                        ok = None if name in ("data_member_location",) else False
+                    else:
+                        # the dumper shows the stored bits; the engine may show them sign-extended by type: equal modulo 2^64 / 2^bits
+                        n = int(v["v"])
+                        ok = any((n - tv[1]) % (1 << b) == 0 for b in (64,)) or any((n % (1 << b)) == (tv[1] % (1 << b)) and abs(tv[1]) < (1 << b) and -(1 << (b - 1)) <= n < (1 << b) for b in (8, 16, 32))
+                        if name == "high_pc" or name == "low_pc":
+                            ok = n == tv[1]
+                if ok is None:
+                    continue
+                out["corpus_compared"] += 1
+                if not ok:
+                    out["bad"].append(("corpus:value-differs-from-independent-dumper:%s" % name, dict(file=tag, die=hex(off), dumper=str(tv)[:100], engine=v.get("sh"))))
+                    break
+    except common.DriverCrash as ex:
+        out["bad"].append(("crash:" + getattr(ex, "key", ex.kind), dict(file=tag, report=ex.report[-3000:])))
+    except common.DriverTimeout:
+        out["bad"].append(("hang", dict(file=tag)))
+    out["bad"] = out["bad"][:10]
+    return out
+
+
 SPECIAL = [("ref_sig8", ("type", "ref_sig8", 0x1122334455667788)), ("discr_value", ("discr_value", "data1", 5)), ("unknown-attr", (0x90, "data2", 7)),
            ("data16", ("byte_size", "data16", bytes(range(16))))]
 
@@ -376,6 +451,10 @@ def run(chk):
     nf = 96 if quick else 2400
     zcheck.consume(chk, pool.map(job, [("gen", (chk.seed * 141650939 + i, 3)) for i in range(nf // 3)]), tot, ctx, samples, "C07")
     zcheck.consume(chk, pool.map(job_special, [0]), tot, ctx, samples, "C07 special")
+    corpus = dwcorpus.build(quick)
+    from vf.props import c02
+    files = [p for p, l in corpus][::(3 if quick else 1)] + c02.sample_files()
+    zcheck.consume(chk, pool.map(job_corpus, files), tot, ctx, samples, "C07 corpus")
     pool.finish()
     chk.cov.update({
         "evaluations": tot.get("attrs", 0) + tot.get("special", 0),
@@ -384,6 +463,8 @@ def run(chk):
                 "non-trivial = instances with an exact expected value + instances expected to be reported as uninterpretable",
         "generated_files": nf, "attribute_instances": tot.get("attrs", 0), "decoded_as_expected": tot.get("decoded_ok", 0),
         "expected_uninterpretable": tot.get("expected_errors", 0), "special_form_cases": tot.get("special", 0),
+        "compiler_and_sample_files": tot.get("corpus_files", 0), "their_attribute_instances": tot.get("corpus_attrs", 0),
+        "of_which_compared_with_llvm_dwarfdump_values": tot.get("corpus_compared", 0),
         "instances_by_expected_kind": {k[5:]: v for k, v in tot.items() if k.startswith("kind_")},
         "samples": samples[:4],
     })
